@@ -66,23 +66,25 @@ Definition parse_field (p : bytes) : option (field * bytes) :=
       let num := key / 8 in
       let wt := key mod 8 in
       if (num =? 0) || (MaxFieldNumber <? num) then None
-      else match wt with
-           | 0 => match vspec r with
-                  | Some (v, r') => Some ((num, WVar v), r')
-                  | None => None
-                  end
-           | 1 => if Nat.ltb (length r) 8 then None
-                  else Some ((num, WF64 (of_le (firstn 8 r))), skipn 8 r)
-           | 2 => match vspec r with
-                  | Some (l, r') =>
-                      if lenN r' <? l then None
-                      else Some ((num, WLen (firstn (N.to_nat l) r')), skipn (N.to_nat l) r')
-                  | None => None
-                  end
-           | 5 => if Nat.ltb (length r) 4 then None
-                  else Some ((num, WF32 (of_le (firstn 4 r))), skipn 4 r)
-           | _ => None
-           end
+      else if wt =? 0 then
+        match vspec r with
+        | Some (v, r') => Some ((num, WVar v), r')
+        | None => None
+        end
+      else if wt =? 1 then
+        if Nat.ltb (length r) 8 then None
+        else Some ((num, WF64 (of_le (firstn 8 r))), skipn 8 r)
+      else if wt =? 2 then
+        match vspec r with
+        | Some (l, r') =>
+            if lenN r' <? l then None
+            else Some ((num, WLen (firstn (N.to_nat l) r')), skipn (N.to_nat l) r')
+        | None => None
+        end
+      else if wt =? 5 then
+        if Nat.ltb (length r) 4 then None
+        else Some ((num, WF32 (of_le (firstn 4 r))), skipn 4 r)
+      else None                  (* group wire types 3/4, undefined 6/7 *)
   end.
 
 Fixpoint wire_parse_f (fuel : nat) (p : bytes) : option (list field) :=
@@ -109,21 +111,17 @@ Definition wire_parse (p : bytes) : option (list field) := wire_parse_f (length 
 Definition two32 : N := 4294967296.
 
 (* message KV { bytes key = 1; bytes value = 2; fixed64 timestampNano = 3; uint32 flags = 4; } *)
+Definition spec_kv_step (f : field) (e : kv) : res kv :=
+  let '(num, v) := f in
+  if num =? 1 then match v with WLen p => Ok (mkKV p (k_val e) (k_ts e) (k_flags e)) | _ => E end
+  else if num =? 2 then match v with WLen p => Ok (mkKV (k_key e) p (k_ts e) (k_flags e)) | _ => E end
+  else if num =? 3 then match v with WF64 x => Ok (mkKV (k_key e) (k_val e) x (k_flags e)) | _ => E end
+  else if num =? 4 then match v with WVar x => Ok (mkKV (k_key e) (k_val e) (k_ts e) (x mod two32)) | _ => E end
+  else Ok e.
 Fixpoint spec_kv_fold (fs : list field) (e : kv) : res kv :=
   match fs with
   | [] => Ok e
-  | (num, v) :: r =>
-      match num, v with
-      | 1, WLen p => spec_kv_fold r (mkKV p (k_val e) (k_ts e) (k_flags e))
-      | 1, _ => E
-      | 2, WLen p => spec_kv_fold r (mkKV (k_key e) p (k_ts e) (k_flags e))
-      | 2, _ => E
-      | 3, WF64 x => spec_kv_fold r (mkKV (k_key e) (k_val e) x (k_flags e))
-      | 3, _ => E
-      | 4, WVar x => spec_kv_fold r (mkKV (k_key e) (k_val e) (k_ts e) (x mod two32))
-      | 4, _ => E
-      | _, _ => spec_kv_fold r e
-      end
+  | f :: r => do e' <- spec_kv_step f e; spec_kv_fold r e'
   end.
 Definition spec_kv (p : bytes) : res kv :=
   match wire_parse p with
@@ -132,23 +130,21 @@ Definition spec_kv (p : bytes) : res kv :=
   end.
 
 (* message DBI { string name = 1; repeated KV entries = 2; uint64 flags = 3; string transform = 4; } *)
+Definition spec_dbi_step (f : field) (d : dbi) : res dbi :=
+  let '(num, v) := f in
+  if num =? 1 then match v with WLen p => Ok (mkDbi p (db_flags d) (db_transform d) (db_entries d)) | _ => E end
+  else if num =? 2 then
+    match v with
+    | WLen p => do e <- spec_kv p; Ok (mkDbi (db_name d) (db_flags d) (db_transform d) (db_entries d ++ [e]))
+    | _ => E
+    end
+  else if num =? 3 then match v with WVar x => Ok (mkDbi (db_name d) x (db_transform d) (db_entries d)) | _ => E end
+  else if num =? 4 then match v with WLen p => Ok (mkDbi (db_name d) (db_flags d) p (db_entries d)) | _ => E end
+  else Ok d.
 Fixpoint spec_dbi_fold (fs : list field) (d : dbi) : res dbi :=
   match fs with
   | [] => Ok d
-  | (num, v) :: r =>
-      match num, v with
-      | 1, WLen p => spec_dbi_fold r (mkDbi p (db_flags d) (db_transform d) (db_entries d))
-      | 1, _ => E
-      | 2, WLen p =>
-          do e <- spec_kv p;
-          spec_dbi_fold r (mkDbi (db_name d) (db_flags d) (db_transform d) (db_entries d ++ [e]))
-      | 2, _ => E
-      | 3, WVar x => spec_dbi_fold r (mkDbi (db_name d) x (db_transform d) (db_entries d))
-      | 3, _ => E
-      | 4, WLen p => spec_dbi_fold r (mkDbi (db_name d) (db_flags d) p (db_entries d))
-      | 4, _ => E
-      | _, _ => spec_dbi_fold r d
-      end
+  | f :: r => do d' <- spec_dbi_step f d; spec_dbi_fold r d'
   end.
 Definition dbi0 : dbi := mkDbi [] 0 [] [].
 Definition spec_dbi (p : bytes) : res dbi :=
@@ -159,27 +155,20 @@ Definition spec_dbi (p : bytes) : res dbi :=
 
 (* message Meta { string generationID = 1; string instanceID = 2; string hostname = 3; int64 lmdbTxnID = 4;
    fixed64 timestampNano = 5; reserved 6; string databaseName = 7; int64 fromLmdbTxnID = 8; } *)
+Definition spec_meta_step (f : field) (m : meta) : res meta :=
+  let '(num, v) := f in
+  if num =? 1 then match v with WLen p => Ok (mkMeta p (m_inst m) (m_host m) (m_txn m) (m_ts m) (m_dbname m) (m_from m)) | _ => E end
+  else if num =? 2 then match v with WLen p => Ok (mkMeta (m_gen m) p (m_host m) (m_txn m) (m_ts m) (m_dbname m) (m_from m)) | _ => E end
+  else if num =? 3 then match v with WLen p => Ok (mkMeta (m_gen m) (m_inst m) p (m_txn m) (m_ts m) (m_dbname m) (m_from m)) | _ => E end
+  else if num =? 4 then match v with WVar x => Ok (mkMeta (m_gen m) (m_inst m) (m_host m) (to_int64 x) (m_ts m) (m_dbname m) (m_from m)) | _ => E end
+  else if num =? 5 then match v with WF64 x => Ok (mkMeta (m_gen m) (m_inst m) (m_host m) (m_txn m) x (m_dbname m) (m_from m)) | _ => E end
+  else if num =? 7 then match v with WLen p => Ok (mkMeta (m_gen m) (m_inst m) (m_host m) (m_txn m) (m_ts m) p (m_from m)) | _ => E end
+  else if num =? 8 then match v with WVar x => Ok (mkMeta (m_gen m) (m_inst m) (m_host m) (m_txn m) (m_ts m) (m_dbname m) (to_int64 x)) | _ => E end
+  else Ok m.
 Fixpoint spec_meta_fold (fs : list field) (m : meta) : res meta :=
   match fs with
   | [] => Ok m
-  | (num, v) :: r =>
-      match num, v with
-      | 1, WLen p => spec_meta_fold r (mkMeta p (m_inst m) (m_host m) (m_txn m) (m_ts m) (m_dbname m) (m_from m))
-      | 1, _ => E
-      | 2, WLen p => spec_meta_fold r (mkMeta (m_gen m) p (m_host m) (m_txn m) (m_ts m) (m_dbname m) (m_from m))
-      | 2, _ => E
-      | 3, WLen p => spec_meta_fold r (mkMeta (m_gen m) (m_inst m) p (m_txn m) (m_ts m) (m_dbname m) (m_from m))
-      | 3, _ => E
-      | 4, WVar x => spec_meta_fold r (mkMeta (m_gen m) (m_inst m) (m_host m) (to_int64 x) (m_ts m) (m_dbname m) (m_from m))
-      | 4, _ => E
-      | 5, WF64 x => spec_meta_fold r (mkMeta (m_gen m) (m_inst m) (m_host m) (m_txn m) x (m_dbname m) (m_from m))
-      | 5, _ => E
-      | 7, WLen p => spec_meta_fold r (mkMeta (m_gen m) (m_inst m) (m_host m) (m_txn m) (m_ts m) p (m_from m))
-      | 7, _ => E
-      | 8, WVar x => spec_meta_fold r (mkMeta (m_gen m) (m_inst m) (m_host m) (m_txn m) (m_ts m) (m_dbname m) (to_int64 x))
-      | 8, _ => E
-      | _, _ => spec_meta_fold r m
-      end
+  | f :: r => do m' <- spec_meta_step f m; spec_meta_fold r m'
   end.
 Definition spec_meta (p : bytes) (m : meta) : res meta :=
   match wire_parse p with
@@ -188,25 +177,25 @@ Definition spec_meta (p : bytes) (m : meta) : res meta :=
   end.
 
 (* message Snapshot { uint32 formatVersion = 1; Meta meta = 2; repeated DBI databases = 3; uint32 compatVersion = 4; } *)
+Definition spec_snapshot_step (f : field) (s : snap) : res snap :=
+  let '(num, v) := f in
+  if num =? 1 then match v with WVar x => Ok (mkSnap (x mod two32) (s_compat s) (s_meta s) (s_dbis s)) | _ => E end
+  else if num =? 2 then
+    match v with
+    | WLen p => do m <- spec_meta p (s_meta s); Ok (mkSnap (s_fmt s) (s_compat s) m (s_dbis s))
+    | _ => E
+    end
+  else if num =? 3 then
+    match v with
+    | WLen p => do d <- spec_dbi p; Ok (mkSnap (s_fmt s) (s_compat s) (s_meta s) (s_dbis s ++ [d]))
+    | _ => E
+    end
+  else if num =? 4 then match v with WVar x => Ok (mkSnap (s_fmt s) (x mod two32) (s_meta s) (s_dbis s)) | _ => E end
+  else Ok s.
 Fixpoint spec_snapshot_fold (fs : list field) (s : snap) : res snap :=
   match fs with
   | [] => Ok s
-  | (num, v) :: r =>
-      match num, v with
-      | 1, WVar x => spec_snapshot_fold r (mkSnap (x mod two32) (s_compat s) (s_meta s) (s_dbis s))
-      | 1, _ => E
-      | 2, WLen p =>
-          do m <- spec_meta p (s_meta s);
-          spec_snapshot_fold r (mkSnap (s_fmt s) (s_compat s) m (s_dbis s))
-      | 2, _ => E
-      | 3, WLen p =>
-          do d <- spec_dbi p;
-          spec_snapshot_fold r (mkSnap (s_fmt s) (s_compat s) (s_meta s) (s_dbis s ++ [d]))
-      | 3, _ => E
-      | 4, WVar x => spec_snapshot_fold r (mkSnap (s_fmt s) (x mod two32) (s_meta s) (s_dbis s))
-      | 4, _ => E
-      | _, _ => spec_snapshot_fold r s
-      end
+  | f :: r => do s' <- spec_snapshot_step f s; spec_snapshot_fold r s'
   end.
 Definition snap0 : snap := mkSnap 0 0 meta0 [].
 Definition spec_snapshot (fs : list field) : res snap := spec_snapshot_fold fs snap0.
@@ -241,10 +230,8 @@ Definition kv_ok (p : bytes) : bool :=
   match p with [] => false | _ => is_some (wire_parse p) end.
 
 Definition dbi_field_ok (f : field) : bool :=
-  match f with
-  | (2, WLen p) => kv_ok p
-  | _ => true
-  end.
+  let '(num, v) := f in
+  match v with WLen p => if num =? 2 then kv_ok p else true | _ => true end.
 Definition dbi_ok (p : bytes) : bool :=
   match wire_parse p with
   | Some fs => forallb dbi_field_ok fs
@@ -267,8 +254,8 @@ Definition snap_field_ok (f : field) : bool :=
   match v with
   | WLen p =>
       (lenN p <=? MaxFieldLength) &&
-      match num with 2 => meta_ok p | 3 => dbi_ok p | _ => true end
-  | WVar x => match num with 1 | 4 => x <? two32 | _ => true end
+      (if num =? 2 then meta_ok p else if num =? 3 then dbi_ok p else true)
+  | WVar x => if (num =? 1) || (num =? 4) then x <? two32 else true
   | _ => true
   end.
 Definition schema_ok (fs : list field) : bool := forallb snap_field_ok fs.
